@@ -499,12 +499,31 @@ class CallMixin:
         return Term("len", (x,), kind="int", node=node)
 
     def x_max(self, args: List[V], kwargs: Dict[str, V], node: Any) -> Optional[V]:
-        return self._minmax("max", args, node)
+        return self._minmax("max", args, node, kwargs)
 
     def x_min(self, args: List[V], kwargs: Dict[str, V], node: Any) -> Optional[V]:
-        return self._minmax("min", args, node)
+        return self._minmax("min", args, node, kwargs)
 
-    def _minmax(self, op: str, args: List[V], node: Any) -> Optional[V]:
+    def x_ord(self, args: List[V], kwargs: Dict[str, V], node: Any) -> Optional[V]:
+        if len(args) == 1 and isinstance(args[0], Const) and isinstance(args[0].value, str) and len(args[0].value) == 1:
+            return Const(ord(args[0].value))
+        return None
+
+    def _minmax(self, op: str, args: List[V], node: Any, kwargs: Optional[Dict[str, V]] = None) -> Optional[V]:
+        kwargs = kwargs or {}
+        if len(args) == 1 and "key" not in kwargs:
+            x = self._unwrap1(args[0])
+            if isinstance(x, Const) and isinstance(x.value, (str, tuple)):
+                x = ListV([Const(c) for c in x.value])
+            if isinstance(x, (ListV, TupleV, SetV)) and x.concrete() and all(isinstance(i, Const) for i in x.items):
+                vals = [i.value for i in x.items]
+                if vals:
+                    try:
+                        return Const(max(vals) if op == "max" else min(vals))
+                    except Exception:
+                        return None
+                if "default" in kwargs:
+                    return kwargs["default"]
         if len(args) >= 2 and all(isinstance(a, Const) for a in args):
             try:
                 return Const(max(a.value for a in args) if op == "max" else min(a.value for a in args))  # type: ignore
